@@ -37,6 +37,7 @@ CONSTANTS
     CopyVariant,  \* snap: "copy" (as required and as coded) | "lazyRef" (negative control: keeps a reference)
     Catalogue,    \* dechist: the text contents (units, cuts, valid) two of which share a charset in a history
     MaxHist,      \* dechist: number of calls in a history
+    EqKinds,      \* eq: kinds of operand: subset of {"plain", "subclass", "snapshot", "subsnapshot"}
     DecoderScope  \* dechist: "perIteration" (as required and as coded) | "sharedCached" (negative control: one
                   \*          decoder per charset, reset only when an iteration ran to completion)
 
@@ -65,15 +66,23 @@ NoSeek == [on |-> FALSE, off |-> 0, wh |-> 0]
 \* offsets before / at / after EOF for both origins; resulting positions 0..n+2
 Seeks(n) == {NoSeek} \cup {[on |-> TRUE, off |-> o, wh |-> 0] : o \in 0..(n + 2)}
                      \cup {[on |-> TRUE, off |-> o - n, wh |-> 2] : o \in 0..(n + 2)}
-Scenarios == {"once", "twice", "mutate"}
-NIter(sc) == IF sc = "twice" THEN 2 ELSE 1
+\* "mutate": the source changes between creation and the first serialisation;
+\* "remutate": between two COMPLETE serialisations of the same content
+Scenarios == {"once", "twice", "mutate", "remutate"}
+NIter(sc) == IF sc \in {"twice", "remutate"} THEN 2 ELSE 1
+MutKinds == {"append", "truncate", "rewrite"}
+Changes(sc) == sc \in {"mutate", "remutate"}
 
 InitRead ==
     \E n \in 0..MaxN, k \in 1..MaxK, bnow \in BOOLEAN, kind \in {"stream", "file"}, sc \in Scenarios :
     \E seek \in Seeks(n), cap \in {k, IF kind = "stream" /\ k > 1 THEN k - 1 ELSE k},
        pos0 \in {0, IF kind = "stream" /\ n > 0 THEN 1 ELSE 0} :
         /\ (pos0 > 0 => ~seek.on)       \* a pre-positioned stream only matters when no seek is requested
-        /\ rd = [data |-> Data(n, 0), k |-> k, seek |-> seek, bnow |-> bnow, kind |-> kind, cap |-> cap,
+        /\ \E mk \in MutKinds :
+           /\ (~Changes(sc) => mk = "append")                          \* irrelevant then: one representative
+           /\ (Changes(sc) /\ mk # "append" => n >= 1)                 \* something to truncate / rewrite
+           /\ (Changes(sc) /\ mk = "truncate" /\ seek.on /\ seek.wh = 2 => (n - 1) + seek.off >= 0)   \* target stays >= 0
+           /\ rd = [mk |-> mk, data |-> Data(n, 0), k |-> k, seek |-> seek, bnow |-> bnow, kind |-> kind, cap |-> cap,
                  sc |-> sc, pos |-> pos0, pc |-> "new", sink |-> "none", calls |-> <<>>, chunk |-> <<>>,
                  out |-> <<>>, buf |-> <<>>, outs |-> <<>>, iters |-> 0, mutated |-> FALSE,
                  d0 |-> <<>>, p0 |-> 0, cdone |-> 0, n0 |-> n, pos0 |-> pos0]
@@ -87,18 +96,24 @@ Create ==
     /\ rd' = IF rd.bnow THEN [rd EXCEPT !.pc = "start", !.sink = "buf"] ELSE [rd EXCEPT !.pc = "created"]
     /\ Log([a |-> "Create"])
 
-\* the source changes between creation and serialisation (bytes replaced, one byte longer)
+\* the source changes (a byte appended / the last byte cut off / every byte rewritten)
 Mutate ==
     /\ OnlyRd
-    /\ IsRead /\ rd.pc = "created" /\ rd.sc = "mutate" /\ ~rd.mutated
-    /\ rd' = [rd EXCEPT !.data = Data(Len(rd.data) + 1, 50), !.mutated = TRUE]
-    /\ Log([a |-> "Mutate", data |-> rd'.data])
+    /\ IsRead /\ ~rd.mutated
+    /\ \/ rd.sc = "mutate" /\ rd.pc = "created"
+       \/ rd.sc = "remutate" /\ rd.pc = "itdone" /\ rd.iters = 1
+    /\ rd' = [rd EXCEPT !.mutated = TRUE,
+                        !.data = CASE rd.mk = "append"   -> rd.data \o <<91>>
+                                   [] rd.mk = "truncate" -> SubSeq(rd.data, 1, Len(rd.data) - 1)
+                                   [] OTHER              -> Data(Len(rd.data), 50)]
+    /\ Log([a |-> "Mutate", how |-> rd.mk, data |-> rd'.data])
 
 \* content.iter_bytes() on a lazy content: a generator is made, nothing runs yet
 IterBytes ==
     /\ OnlyRd
     /\ IsRead /\ ~rd.bnow /\ rd.pc \in {"created", "itdone"} /\ rd.iters < NIter(rd.sc)
     /\ rd.sc = "mutate" => rd.mutated
+    /\ rd.sc = "remutate" /\ rd.iters = 1 => rd.mutated
     /\ rd' = [rd EXCEPT !.pc = "start", !.sink = "out", !.out = <<>>]
     /\ Log([a |-> "IterBytes"])
 
@@ -107,6 +122,7 @@ IterBuffered ==
     /\ OnlyRd
     /\ IsRead /\ rd.bnow /\ rd.pc \in {"created", "itdone"} /\ rd.iters < NIter(rd.sc)
     /\ rd.sc = "mutate" => rd.mutated
+    /\ rd.sc = "remutate" /\ rd.iters = 1 => rd.mutated
     /\ rd' = [rd EXCEPT !.pc = "itdone", !.outs = Append(@, rd.buf), !.iters = @ + 1]
     /\ Log([a |-> "IterBuffered", chunks |-> rd.buf, bytes |-> Concat(rd.buf)])
 
@@ -476,9 +492,11 @@ EqData == UNION {[1..l -> {1, 2}] : l \in 0..MaxN}
 
 \* MECHANISM: Content.__eq__: content_type == content_type and join(iter_bytes) == join(iter_bytes)
 EqMech(r) == r.t1 = r.t2 /\ Concat(r.c1) = Concat(r.c2)
-InitEq == \E t1, t2 \in EqTypes, d1, d2 \in EqData :
+\* operand kinds: a plain Content, an instance of a subclass of Content, and the _copy_content snapshot of either;
+\* the kind is NOT part of equality (the mechanism never looks at it)
+InitEq == \E t1, t2 \in EqTypes, d1, d2 \in EqData, k1, k2 \in EqKinds :
           \E c1 \in Chunkings(d1), c2 \in Chunkings(d2) :
-             row = [t1 |-> t1, t2 |-> t2, d1 |-> d1, d2 |-> d2, c1 |-> c1, c2 |-> c2]
+             row = [t1 |-> t1, t2 |-> t2, d1 |-> d1, d2 |-> d2, c1 |-> c1, c2 |-> c2, k1 |-> k1, k2 |-> k2]
 \* MEANING: equality of type and bytes, whatever the chunking
 EqByTypeAndBytes == Machine = "eq" => (EqMech(row) <=> (row.t1 = row.t2 /\ row.d1 = row.d2))
 
@@ -520,7 +538,7 @@ Spec == Init /\ [][Next]_vars
 Terminal == CASE Machine = "read" -> ReadTerminal [] Machine = "decode" -> DecodeTerminal
               [] Machine = "ctype" -> CtypeTerminal [] Machine = "snap" -> SnapTerminal [] Machine = "dechist" -> DhTerminal [] OTHER -> FALSE
 Scenario == CASE Machine = "read" -> [n |-> rd.n0, k |-> rd.k, seek |-> rd.seek, bnow |-> rd.bnow, kind |-> rd.kind,
-                                      cap |-> rd.cap, sc |-> rd.sc, pos0 |-> rd.pos0]
+                                      cap |-> rd.cap, sc |-> rd.sc, mk |-> rd.mk, pos0 |-> rd.pos0]
               [] Machine = "decode" -> [units |-> dc.units, cuts |-> dc.cuts, mode |-> dc.mode]
               [] Machine = "dechist" -> [cont |-> dh.cont]
               [] OTHER -> [m |-> Machine]
